@@ -22,6 +22,17 @@ def norm(name):
 def gen_input(rng):
     sch = Schema(rng)
     qs = []
+    if rng.random() < 0.12:
+        # the same table read by two queries: once plainly, once with a nullable column wrapped in an un-aliased COALESCE
+        # (same name, NOT NULL) - every back-end must see the second result column as not null
+        t = rng.choice(list(sch.tables))
+        cols = sch.tables[t]
+        wrapped = [("COALESCE(%s, %s)" % (c_, c_)) if (j_ > 0 and rng.random() < 0.6) else c_ for j_, c_ in enumerate(cols)]
+        pair = ["-- name: Plain%d :many\nSELECT %s FROM %s;\n" % (len(qs), ", ".join(cols), t),
+                "-- name: Wrapped%d :many\nSELECT %s FROM %s;\n" % (len(qs), ", ".join(wrapped), t)]
+        if rng.random() < 0.5:
+            pair.reverse()
+        qs += pair
     for i in range(rng.randint(1, 4)):
         if rng.random() < 0.4:
             # placeholder-dense shape: 2-7 distinct placeholders over few columns (name collisions),
